@@ -9,7 +9,8 @@ from .common import Viol, slice_range, boundary
 FLAVOURS = ("san",)
 RULE = ("(a) dtest A --cmp B (and the six named operators) on pairs of the same kind and "
         "calendar: near pairs a, a+-{0..45} days around boundary days, far random pairs, "
-        "date-times differing only in the time part, times; expected exit status from the "
+        "date-times differing only in the time part, times, times and date-times with nanoseconds "
+        "(-i %T.%N / %FT%T.%N) differing only in the fraction; expected exit status from the "
         "integer order of the reference timeline (which is antisymmetric, transitive, total). "
         "(b) dgrep 'OP A' over a batch of lines with one date each (same calendar): selected lines "
         "== lines whose date satisfies OP. (c) dsort [-r] on generated files (duplicates, several "
@@ -72,8 +73,26 @@ def dtest(ctx, shard, nshards):
                 a += 1
             while not R.is_bday(b):
                 b += 1
-        kind = rnd.choice(("d", "d", "dt", "t"))
-        if kind == "t":
+        kind = rnd.choice(("d", "d", "dt", "t", "ns"))
+        pre = []
+        if kind == "ns":
+            # values that differ in the fraction of the second only (or not at all), read with %N
+            NS = (0, 1, 100000000, 499999999, 500000000, 999999999, rnd.randrange(10 ** 9))
+            na, nb = rnd.choice(NS), rnd.choice(NS)
+            sa = rnd.choice((0, 43200, 86399, rnd.randrange(86400)))
+            sb = sa if rnd.random() < 0.7 else max(0, min(86399, sa + rnd.choice((-1, 1))))
+            if rnd.random() < 0.5:
+                ta, tb = "%s.%09d" % (R.hms(sa), na), "%s.%09d" % (R.hms(sb), nb)
+                ka, kb = sa * 10 ** 9 + na, sb * 10 ** 9 + nb
+                pre, tagrep = ["-i", "%T.%N"], "time.ns"
+            else:
+                if rnd.random() < 0.8:
+                    b = a
+                ta, tb = "%sT%s.%09d" % (R.f_ymd(a), R.hms(sa), na), "%sT%s.%09d" % (R.f_ymd(b), R.hms(sb), nb)
+                ka, kb = (a * 86400 + sa) * 10 ** 9 + na, (b * 86400 + sb) * 10 ** 9 + nb
+                pre, tagrep = ["-i", "%FT%T.%N"], "ymd+t.ns"
+            rep = "ymd"
+        elif kind == "t":
             sa, sb = rnd.randrange(86400), rnd.randrange(86400)
             if rnd.random() < 0.4:
                 sb = max(0, min(86399, sa + rnd.choice((-1, 0, 1))))
@@ -90,17 +109,17 @@ def dtest(ctx, shard, nshards):
             tagrep = rep
         c = sgn(ka - kb)
         op = rnd.choice(["--cmp"] * 3 + list(OPS))
-        r = run_args(ctx.build, "dtest", [ta, op, tb])
+        r = run_args(ctx.build, "dtest", pre + [ta, op, tb])
         if op == "--cmp":
             want = {0: 0, 1: 1, -1: 2}[c]
         else:
             want = 0 if OPS[op](c) else 1
         sub.evaluations += 1
-        if tagrep != "time" and (R.ymd(min(a, b))[:2] != R.ymd(max(a, b))[:2] or a == b):
+        if not tagrep.startswith("time") and (R.ymd(min(a, b))[:2] != R.ymd(max(a, b))[:2] or a == b):
             sub.nt((tagrep, ka, kb))
         if r.crashed or r.rc != want:
             V.add("dtest:%s:%s" % (tagrep, "eq" if c == 0 else "lt" if c < 0 else "gt"),
-                  {"a": ta, "b": tb, "op": op, "want": want, "kind": "dtest"},
+                  {"a": ta, "b": tb, "op": op, "want": want, "kind": "dtest", "pre": pre},
                   expected=want, actual=r.brief(), weight=abs(ka - kb))
         if i < 2 and shard == 0:
             sub.sample({"cmd": "dtest %s %s %s" % (ta, op, tb), "expected_status": want})
@@ -230,7 +249,7 @@ def _judge_sort(lines, rev, r):
 def replay(ctx, subname, case):
     k = case["kind"]
     if k == "dtest":
-        r = run_args(ctx.build, "dtest", [case["a"], case["op"], case["b"]])
+        r = run_args(ctx.build, "dtest", list(case.get("pre", [])) + [case["a"], case["op"], case["b"]])
         return None if (r.rc == case["want"] and not r.crashed) else {"expected": case["want"], "actual": r.brief()}
     if k == "dgrep":
         data = "".join(t + "\n" for t in case["lines"])
